@@ -209,8 +209,9 @@ def bmc_answer(p, serial):
 
 
 class ScriptedSocket:
-    def __init__(self, s):
+    def __init__(self, s, stale=()):
         self.s = s
+        self.stale = set(stale)   # datagram numbers answered with an unrelated frame first
         self.wire = []      # ('tx', tid, reqidx, parsed, serial) / ('rx', tid, serial)
         self.pending = []   # (serial, datagram)
         self.nrx = 0
@@ -235,6 +236,10 @@ class ScriptedSocket:
         p = parse_tx(pdu)
         self.nrx += 1
         self.wire.append(('tx', tid, self.reqidx.get(tid, 0), p, serial))
+        if serial in self.stale:
+            # an unrelated frame first: same netfn/cmd, a stale sequence number, another payload
+            old = dict(p, seq=(1 if p['seq'] == 0 else p['seq'] - 1))
+            self.pending.append((serial + 100, bmc_answer(old, serial + 100)))
         self.pending.append((serial, bmc_answer(p, serial)))
         self.s.did(tid, 'snd')
         return len(pdu)
@@ -340,7 +345,8 @@ def keepalive_loop(R, rmcp, n, func, args=()):
 
 def run_schedule(cfg, choices, fine=False, budget=None):
     """cfg = {'threads': [{'kind': 'raw'|'msg'|'keepalive', 'reqs': [[netfn, cmd], ...]}, ...],
-              'nsn0': int, 's0': int, 'auth': 0|2|4, 'max_retries': int, 'active': bool}
+              'nsn0': int, 's0': int, 'auth': 0|2|4, 'max_retries': int, 'active': bool,
+              'stale': [datagram numbers the BMC answers with an unrelated frame before the reply]}
     -> observation dict (JSON-able)."""
     import pyipmi
     from pyipmi import Target
@@ -379,7 +385,7 @@ def run_schedule(cfg, choices, fine=False, budget=None):
 
     intf = SRmcp(keep_alive_interval=1, max_retries=cfg.get('max_retries', 0))
     intf.host, intf.port = 'bmc', 623
-    sock = ScriptedSocket(s)
+    sock = ScriptedSocket(s, cfg.get('stale', ()))
     intf._sock = sock
     lock = CoopLock(s)
     intf.transaction_lock = lock
